@@ -406,7 +406,121 @@ def dispatch_case(ctx, case):
     ctx.label('ignores_fired_%d' % min(fired, 3))
 
 
-COMPONENTS = {'dispatch': dispatch_case}
+def reentrant_case(ctx, case):
+    """Outgoing dispatch under the re-entrancy the write lock exists for: an
+    ordinary outgoing listener calls Connection.disconnect() (which flushes
+    the queue) while one of several queued packets is being written.
+    case {version, n, d, oe: [filter..], oo: [filter..], who, compress}
+    n queued chat packets m0..m(n-1); the oo listener number `who` calls
+    disconnect() after m<d> has been written.  Oracle: for every chat packet
+    each matching early-outgoing listener ran exactly once before its frame,
+    each matching ordinary-outgoing listener exactly once after it, the
+    frames m0..m(n-1) are on the wire exactly once each and in queue order,
+    the client closed the link and no error was reported."""
+    from minecraft.networking.packets import serverbound as sb, \
+        clientbound as cb
+    version, n, d = case['version'], case['n'], case['d'] % case['n']
+    ctx.ev()
+    F = filter_classes()
+    login = [('compress', case['compress'])] \
+        if case.get('compress') is not None else []
+    lay = dict(servers.packet_info(version, 'chat')[1])
+    v = {'json_data': '{"text":"go"}', 'position': 0}
+    if 'sender' in lay:
+        v['sender'] = '00000000-0000-0000-0000-000000000001'
+    srv = servers.Server({'version': version, 'login': login + [('success',)],
+                          'play': {'bursts': [[('chat', v)]], 'mode': 'all',
+                                   'end': 'silent'}})
+    world = vnet.World(servers=[srv])
+    log = []        # (seq, class, listener number, message)
+    did = []
+    with vnet.installed(world):
+        conn, o = servers.make_connection(world, allowed_versions={version})
+
+        def queue_all(p):
+            for i in range(n):
+                conn.write_packet(sb.play.ChatPacket(message='m%d' % i))
+        conn.register_packet_listener(queue_all, cb.play.ChatMessagePacket)
+
+        def make(cls, k):
+            def fn(packet):
+                if type(packet).__name__ != 'ChatPacket':
+                    return
+                log.append((world.next_seq(), cls, k, packet.message))
+                if cls == 'oo' and k == case['who'] % len(case['oo']) and \
+                        packet.message == 'm%d' % d and not did:
+                    did.append(1)
+                    conn.disconnect()
+            return fn
+        for cls in ('oe', 'oo'):
+            for k, t in enumerate(case[cls]):
+                kw = {'outgoing': True}
+                if cls == 'oe':
+                    kw['early'] = True
+                conn.register_packet_listener(make(cls, k), F[t], **kw)
+        try:
+            conn.connect()
+        except Exception as e:
+            ctx.fail('reentrant', 'D-connect-raised', case, exc=e)
+            return
+        state = world.settle()
+    if state == 'timeout':
+        from vlib.core import HarnessError
+        raise HarnessError('C13 reentrant case did not settle')
+    if state != 'done':
+        ctx.fail('reentrant', 'D-client-%s' % state, case,
+                 'server errors %r' % srv.errors)
+        return
+    if o.exceptions:
+        ctx.fail('reentrant', 'D-unexpected-error', case,
+                 repr(o.exceptions[0][0]))
+        return
+    if srv.errors:
+        ctx.fail('reentrant', 'D2-malformed-client-stream', case, srv.errors)
+        return
+    chat_id = servers.packet_info(version, 'sb_chat')[0]
+    got = [servers.decode(version, 'sb_chat', pl)['message']
+           for pid, pl in srv.other_play_frames if pid == chat_id]
+    want = ['m%d' % i for i in range(n)]
+    if got != want:
+        ctx.fail('reentrant', 'D3-frames-on-wire', case, got, want)
+        return
+    # seq of the send event of each chat frame
+    link = world.links[0]
+    sends, pos = [], 0
+    for s_, k_, info in link.events:
+        if k_ == 'send':
+            sends.append((s_, pos, pos + info))
+            pos += info
+    chat_spans = [sp for (st_, pid, pl, comp), sp in
+                  zip(srv.frames, srv.frame_spans)
+                  if st_ == 'play' and pid == chat_id]
+    for i, (a, b) in enumerate(chat_spans):
+        ss = [s_ for s_, x, y in sends if x < b and y > a]
+        msg = 'm%d' % i
+        calls = [(s_, cls, k) for s_, cls, k, m in log if m == msg]
+        want_calls = [('oe', k) for k in range(len(case['oe']))] + \
+            [('oo', k) for k in range(len(case['oo']))]
+        if [(cls, k) for s_, cls, k in calls] != want_calls:
+            ctx.fail('reentrant', 'D3-outgoing-call-log',
+                     dict(case, packet=msg),
+                     [(cls, k) for s_, cls, k in calls], want_calls)
+            return
+        for s_, cls, k in calls:
+            if (cls == 'oe' and not s_ < min(ss)) or \
+                    (cls == 'oo' and not s_ > max(ss)):
+                ctx.fail('reentrant', 'D3-listener-on-wrong-side-of-write',
+                         dict(case, packet=msg), (cls, k))
+                return
+    if not link.closed_by_client():
+        ctx.fail('reentrant', 'D3-link-left-open', case)
+        return
+    if n >= 2 and d < n - 1:
+        ctx.nt('reentrant', repr(case))
+    ctx.label('reentrant_disconnect')
+
+
+COMPONENTS = {'dispatch': dispatch_case, 'reentrant': reentrant_case}
 
 
 # --------------------------------------------------------------- strategies
@@ -540,34 +654,69 @@ def t_fixed(ctx):
                         '(listener, packet index) ignore at 3 protocols')
 
 
-def t_ignore_success(ctx):
+def t_reentrant(ctx, n):
+    for v in (757, 340, 47):
+        for nn in (1, 2, 3, 5):
+            for d in range(nn):
+                reentrant_case(ctx, {'version': v, 'n': nn, 'd': d,
+                                     'oe': ['Packet'],
+                                     'oo': ['SbChat', 'Packet'],
+                                     'who': d % 2, 'compress':
+                                     [None, 0, 64][d % 3]})
+    ctx.exhaustive_done('re-entrant disconnect: 3 protocols x 1-5 queued '
+                        'packets x every position')
+    strat = st.fixed_dictionaries({
+        'version': st.sampled_from([757, 340, 47]),
+        'n': st.integers(1, 8), 'd': st.integers(0, 7),
+        'oe': st.lists(st.sampled_from(['Packet', 'SbChat']), max_size=3),
+        'oo': st.lists(st.sampled_from(['Packet', 'SbChat']), min_size=1,
+                       max_size=3),
+        'who': st.integers(0, 2),
+        'compress': st.sampled_from([None, 0, 64])})
+
+    def body(c, case):
+        reentrant_case(c, case)
+        if c.evaluations % 50 == 1:
+            c.sample(case, 'reentrant')
+    hyp(ctx, 'reentrant', strat, body, n)
+
+
+def ignore_success_case(ctx, case):
     """IgnorePacket on login success from an early listener: no reactor
-    change (the connection stays in the login state)."""
+    change (the connection stays in the login state).  case {version}"""
     from minecraft.exceptions import IgnorePacket
     from minecraft.networking.packets import clientbound as cb
-    for v in (757, 340, 47):
-        ctx.ev()
-        srv = servers.Server({'version': v, 'login': [('success',),
-                                                      ('close',)]})
-        world = vnet.World(servers=[srv])
-        with vnet.installed(world):
-            conn, o = servers.make_connection(world, allowed_versions={v})
+    v = case['version']
+    ctx.ev()
+    srv = servers.Server({'version': v, 'login': [('success',),
+                                                  ('close',)]})
+    world = vnet.World(servers=[srv])
+    with vnet.installed(world):
+        conn, o = servers.make_connection(world, allowed_versions={v})
 
-            def ign(p):
-                raise IgnorePacket
-            conn.register_packet_listener(ign, cb.login.LoginSuccessPacket,
-                                          early=True)
-            later = []
-            conn.register_packet_listener(later.append,
-                                          cb.login.LoginSuccessPacket)
-            conn.connect()
-            world.settle()
-            rn = type(conn.reactor).__name__
-        case = {'version': v, 'scenario': 'ignore login success'}
-        if rn != 'LoginReactor' or later:
-            ctx.fail('ignore_success', 'D2-reactor-changed-despite-ignore',
-                     case, (rn, len(later)), ('LoginReactor', 0))
-        ctx.nt('ignore_success', v)
+        def ign(p):
+            raise IgnorePacket
+        conn.register_packet_listener(ign, cb.login.LoginSuccessPacket,
+                                      early=True)
+        later = []
+        conn.register_packet_listener(later.append,
+                                      cb.login.LoginSuccessPacket)
+        conn.connect()
+        world.settle()
+        rn = type(conn.reactor).__name__
+    if rn != 'LoginReactor' or later:
+        ctx.fail('ignore_success', 'D2-reactor-changed-despite-ignore',
+                 case, (rn, len(later)), ('LoginReactor', 0))
+    ctx.nt('ignore_success', v)
+
+
+COMPONENTS['ignore_success'] = ignore_success_case
+
+
+def t_ignore_success(ctx):
+    for v in (757, 340, 47):
+        ignore_success_case(ctx, {'version': v,
+                                  'scenario': 'ignore login success'})
 
 
 def t_random(ctx, n):
@@ -583,4 +732,7 @@ def tasks(tier):
     tl = [('fixed', t_fixed, {}), ('ignore_success', t_ignore_success, {})]
     for i in range(10 if q else 16):
         tl.append(('random_%d' % i, t_random, dict(n=300 if q else 2500)))
+    for i in range(2 if q else 4):
+        tl.append(('reentrant_%d' % i, t_reentrant,
+                   dict(n=150 if q else 2500)))
     return tl
